@@ -26,8 +26,21 @@ FmtTags(ev) ==
     (IF m.name = ev.kind /\ m.args = ev.args THEN {} ELSE {"harness-options-mismatch"})
     \cup (IF ev.out = ev.icu THEN {} ELSE {"output:" \o ev.key \o ":" \o ev.locale})
 
+\* the same for a value of the value universe (FormatterValues): the event's value is one the case lists for that kind, the
+\* options are the text's meaning, and the output is ICU4X's for the canonical decimal / list / date of the value
+FmtValTags(ev) ==
+    LET a == Cases[ev.case].abs
+        m == MeaningOfText(a.catalogue[ev.key]) IN
+    (IF m.name = ev.kind /\ m.args = ev.args THEN {} ELSE {"harness-options-mismatch"})
+    \cup (IF \E i \in DOMAIN a.values : a.values[i].ty = ev.ty /\ a.values[i].text = ev.text /\ ev.kind \in ToSet(a.values[i].kinds)
+          THEN {} ELSE {"harness-value-not-in-case"})
+    \* (an empty text is rendered to HTML as a single blank by the view layer itself - a placeholder text node for hydration)
+    \cup (IF ev.out = ev.icu \/ (ev.via = "td" /\ ev.icu = "" /\ ev.out = " ") THEN {}
+          ELSE {"value-output:" \o ev.key \o ":" \o ev.ty \o ":" \o ev.text})
+
 Tags(ev) == IF ev.ev = "Load" THEN LoadTags(ev)
             ELSE IF ev.ev = "Fmt" THEN FmtTags(ev)
+            ELSE IF ev.ev = "FmtVal" THEN FmtValTags(ev)
             ELSE IF ev.ev = "Crash" THEN {"crash:" \o ev.outcome}
             ELSE {}
 
